@@ -465,15 +465,17 @@ def pearsonr(X, Y, Z, data, boolean=True, **kwargs):
 
     # Step 3: If Z is non-empty, use linear regression to compute residuals and test independence on it.
     else:
-        # Centre every conditioning column and scale it to unit norm before the regression.
+        # Centre every conditioning column and scale it to unit size before the regression.
         # The column space of [1, Z] (hence the residuals) is unchanged, but the least squares
         # problem stays well conditioned for variables with a large offset or in very small or
-        # large units; otherwise lstsq's rank cut-off silently drops such a column.
+        # large units; otherwise lstsq's rank cut-off silently drops such a column. The size is
+        # the largest absolute value (not the Euclidean norm, whose squares under/overflow for
+        # units beyond about 1e-154 and 1e154).
         Z_values = data.loc[:, Z].values.astype(float)
         Z_values = Z_values - Z_values.mean(axis=0)
-        Z_norms = np.linalg.norm(Z_values, axis=0)
-        Z_norms[Z_norms == 0] = 1.0
-        Z_mat = np.column_stack((np.ones(data.shape[0]), Z_values / Z_norms))
+        Z_sizes = np.abs(Z_values).max(axis=0)
+        Z_sizes[Z_sizes == 0] = 1.0
+        Z_mat = np.column_stack((np.ones(data.shape[0]), Z_values / Z_sizes))
         X_coef = np.linalg.lstsq(Z_mat, data.loc[:, X].values, rcond=None)[0]
         Y_coef = np.linalg.lstsq(Z_mat, data.loc[:, Y].values, rcond=None)[0]
 
